@@ -317,8 +317,12 @@ class _Canon(ast.NodeTransformer):
 
     def _positive(self, node):
         """if/else with a negative test -> positive test, branches swapped (plain if/else only)"""
+        t = node.test
+        if node.orelse and isinstance(t, ast.UnaryOp) and isinstance(t.op, ast.Not):
+            # an explicit `not` is always removed, also when the else branch is a single if statement (nested guards look like that)
+            node.test, node.body, node.orelse = t.operand, node.orelse, node.body
+            return node
         if node.orelse and not (len(node.orelse) == 1 and isinstance(node.orelse[0], ast.If)):
-            t = node.test
             if isinstance(t, ast.UnaryOp) and isinstance(t.op, ast.Not):
                 node.test, node.body, node.orelse = t.operand, node.orelse, node.body
             elif isinstance(t, ast.Compare) and len(t.ops) == 1 and type(t.ops[0]) in self._NEG:
